@@ -97,6 +97,19 @@ func confManyFiles() rigConf {
 	return c
 }
 
+// confOneGroup: four files of one ordered group; with two threads a failure of the first
+// payload leaves the receiver with later files complete (held) while the first is not.
+func confOneGroup() rigConf {
+	c := confTwoThreads()
+	c.Files = []rigFile{
+		{Name: "g/a", Data: strings.Repeat("A", 40), Age: 400},
+		{Name: "g/b", Data: strings.Repeat("B", 10), Age: 300},
+		{Name: "g/c", Data: strings.Repeat("C", 14), Age: 200},
+		{Name: "g/d", Data: strings.Repeat("D", 32), Age: 100},
+	}
+	return c
+}
+
 func confOneThread() rigConf {
 	c := confTwoThreads()
 	c.Threads = 1
@@ -348,6 +361,12 @@ func c07Check(r *rig) (string, string, string) {
 	if g := r.c03Goal(); g != "" {
 		return "C07: after the sender restart(s) the end state differs from that of an uninterrupted run: " + g + "\n" + tr(), "", ""
 	}
+	if v := r.c04Order(); v != "" {
+		return "C07 (the ordering chain continues across the restart): " + v + "\n" + tr(), "", ""
+	}
+	if v := r.c07Chain(); v != "" {
+		return "C07 (the ordering chain continues across the restart): " + v + "\n" + tr(), "", ""
+	}
 	// per incarnation: nothing the receiver listed as held, and nothing already delivered, is transmitted
 	for g := 1; g <= r.gen; g++ {
 		listed := map[string][][2]int64{}
@@ -391,12 +410,13 @@ func TestC07Env(t *testing.T) {
 	scs := []envScenario{
 		{"3 files, 2 threads, one-shot", confTwoThreads(), armC02},
 		{"2 files, 1 thread, daemon", asDaemon(confOneThread()), armC02},
+		{"4 files of one group, 2 threads, one-shot", confOneGroup(), armC02},
 	}
 	runEnvProperty(t, "C07", "sender crash at every sender action (E-ENV)", scs, d,
 		func(ev vh.EnvEvent, plan []vh.Deviation) []string {
 			out := pick(ev.Menu, "crash")
 			if len(plan) == 0 && kindOf(ev.Key) == "data" {
-				out = append(out, pick(ev.Menu, "gkfail:", "cut:", "lost")...)
+				out = append(out, pick(ev.Menu, "gkfail:", "cut:", "lost", "refuse")...)
 			}
 			return out
 		}, c07Check,
